@@ -223,6 +223,21 @@ func genC20(c *Ctx) {
 	for _, s := range c20ShapedFixed {
 		trees = append(trees, c20EveryPosition(s))
 	}
+	// DEEP reports: a chain of single children down to the depths a parser can produce (the generic ASN.1 dump
+	// goes 1000 levels below its root line) and beyond, each level with an attribute: every line must be indented
+	// by two columns per level, however deep - a padding string of fixed size or a clamp would show here
+	for _, d := range []int{8, 64, 255, 256, 257, 1000, 1001} {
+		// one line per level (an attribute on every 100th only): the output of a d-level chain is d*d bytes of blanks
+		t := file.Info{Description: fmt.Sprintf("leaf at depth %d", d), Attributes: []file.Attribute{{Name: "Depth", Value: fmt.Sprint(d)}}}
+		for k := d - 1; k >= 0; k-- {
+			n := file.Info{Description: fmt.Sprintf("level %d", k), Children: []file.Info{t}}
+			if k%100 == 0 {
+				n.Attributes = []file.Attribute{{Name: "k", Value: fmt.Sprint(k)}}
+			}
+			t = n
+		}
+		trees = append(trees, t)
+	}
 	for len(trees) < n {
 		trees = append(trees, randTree(c.R, 1+c.R.Intn(3)))
 	}
